@@ -28,7 +28,7 @@ ASSUMPTIONS = ["strict reader mc/rp66.py", "'set identifier' = storage-set ident
 MIN_DISTINCT_OUTCOMES = 2
 NAME_RE = re.compile(r"[A-Z0-9_-]+")
 
-EVENTS = ['E', 'X', 'XE', 'D', 'DE', 'DD', 'DW', 'BC', 'BB', 'W']     # DD: decorated calls decorated; DW: 'with' inside decorated
+EVENTS = ['E', 'X', 'XE', 'D', 'DE', 'DD', 'DW', 'DR', 'DRE', 'BC', 'BB', 'W']     # DD: decorated calls decorated; DW: 'with' inside decorated; DR / DRE: a decorated function re-entering ITSELF (the inner call returning / raising)
 
 
 def depth(tier):
@@ -171,6 +171,23 @@ def check_history(h):
                 outer()
                 if not (seen.get('before') is True and seen.get('inner') is True and seen.get('after') is True):
                     viol.append(("C17:decorator-not-on:nested", f"mode inside nested decorated scopes: {seen} | history={h}"))
+            elif e in ('DR', 'DRE'):
+                seen = {}
+
+                @high_compatibility_mode_decorator
+                def rec(level):
+                    seen[f'in{level}'] = global_config.high_compat_mode
+                    if level < 2:
+                        try:
+                            rec(level + 1)          # the SAME decorated function is active twice (thrice)
+                        except KeyError:
+                            pass
+                    elif e == 'DRE':
+                        raise KeyError('innermost call of the re-entered decorated function')
+                    seen[f'out{level}'] = global_config.high_compat_mode
+                rec(0)
+                if not all(v is True for v in seen.values()) or len(seen) < 5:
+                    viol.append(("C17:decorator-not-on:re-entered", f"mode inside a re-entered decorated function: {seen} | history={h}"))
             elif e == 'BC':
                 b = S.build(conforming_spec())
                 if b.failed_at is not None:
